@@ -120,7 +120,10 @@ def main(tier, seed):
             cases.append(dict(label=[plabel, mlabel], acceptor=acceptor, ops=ops, lenient=lenient))
             if b and rng.random() < 0.15:       # the same bytes followed by more traffic before the close
                 ops2 = list(pre) + [('seg', b), ('idle',), ('seg', pd.mk_rel_rq().encode())] + tail
-                cases.append(dict(label=[plabel, mlabel, '+relrq'], acceptor=acceptor, ops=ops2, lenient=lenient))
+                # bytes of the following PDU can complete a truncated P-DATA-TF: the command set then ends in
+                # foreign bytes, which only pydicom's lenient reader judges
+                len2 = lenient or mlabel.split(':')[0] in ('echo', 'store', 'store_first')
+                cases.append(dict(label=[plabel, mlabel, '+relrq'], acceptor=acceptor, ops=ops2, lenient=len2))
     modelled = [c for c in cases if not c['lenient']]
     lenient = [c for c in cases if c['lenient']]
     runner, res1, f1, broken, _r = pd.run_cases(
